@@ -25,6 +25,12 @@ func ZZC11(mode, script, varspec, metaSpec, flags string) {
 		zzvrt.Reach("skipped-parse-error")
 		return
 	}
+	// "_drop=v1,v2": variables the caller forgot to pass
+	for _, name := range strings.Split(e.spec["_drop"], ",") {
+		if name != "" {
+			delete(e.varsMap, name)
+		}
+	}
 	var meta AccountsMetadata
 	if mode != "history" {
 		meta = zzParseMeta(metaSpec)
